@@ -191,6 +191,10 @@ class NioWalk:
                 dest = t["dest"]["l"]
                 tags.pop(dest, None)
                 if bid in nf.inner:
+                    if called and rk in ("raw_ok",):
+                        # the previous inner call of this request succeeded and the wrapper issues another one (a retry for the
+                        # rest of the same element / the next element) -- recorded for rules that care HOW that retry is set up
+                        self.ev("reissue-after-success", bid, "inner call issued again after a call that succeeded")
                     called, errno0, before_nz = 1, 0, acc_nz
                     if dest == r:
                         rk = "raw"
